@@ -148,10 +148,7 @@ Definition inner (p : plat) (meth site : string) (c : cond) : option res :=
       else if g_aix_io meth site && negb (pid_exists AIX c) then Some RNoSuch
       else None
   | Windows =>
-      (* memory_maps() is a generator: only proc_memory_maps() sits inside its try/except, the
-         convert_dos_path() -> QueryDosDevice() of each row does not *)
-      if g_win_mmaps_dos meth site then Some RRaw
-      else if is_partial e && g_win_partial meth then Some RDenied             (* retry_error_partial_copy *)
+      if is_partial e && g_win_partial meth then Some RDenied                  (* retry_error_partial_copy *)
       else if is_permission_err e && g_win_fallback meth site then Some RVal   (* slower route through proc_info *)
       else None
   | _ => None
@@ -200,6 +197,14 @@ Definition wait_outcome (p : plat) (w : wscen) (s : pstate) : res :=
   match p, w with
   | Windows, WNativeTimeout => RTimeout
   | _, _ => if listed s then RTimeout else RVal
+  end.
+
+(* the code before fix d6fc959: Windows memory_maps() is a generator and only proc_memory_maps() sat inside
+   its try/except; an error of convert_dos_path() -> QueryDosDevice() of a row left it unchanged *)
+Definition method_outcome_pre_d6fc959 (p : plat) (meth site : string) (c : cond) : res :=
+  match p with
+  | Windows => if g_win_mmaps_dos meth site then RRaw else method_outcome p meth site c
+  | _ => method_outcome p meth site c
   end.
 
 (* the code before fix a2d103c: _pswindows.Process.ppid() carried no decorator, so whatever
@@ -314,6 +319,11 @@ Definition broadcast (w a m : Z) : option Z :=
   | None => None
   end.
 
+(* number of one bits (bin(int(IPv6Address(mask))).count("1") in _common.broadcast_addr) *)
+Fixpoint popcount_pos (p : positive) : Z :=
+  match p with xH => 1 | xO q => popcount_pos q | xI q => 1 + popcount_pos q end.
+Definition popcount (z : Z) : Z := match z with Zpos p => popcount_pos p | _ => 0 end.
+
 (* net_if_addrs() row post-processing.  fam: 0 = AF_INET, 1 = AF_INET6, 2 = AF_LINK, 3 = other.
    The netmask text of the raw row: none, an address ("255.255.255.0", "ffff:ffff::"), or a prefix length ("24"). *)
 Inductive maskt := MNone | MAddr (m : Z) | MPrefix (k : Z).
@@ -336,10 +346,18 @@ Definition post_bcast (p : plat) (r : nicrow) : option Z :=
       else if n_fam r =? 1 then
         match n_mask r with
         | MPrefix k => if (0 <=? k) && (k <=? 128) then Some (bcast_prefix 128 (n_addrz r) k) else n_bcast r
-        (* ipaddress.IPv6Network accepts a prefix length only: a mask in address form (the form psutil
-           itself reports IPv6 netmasks in on every other platform) makes it raise -> kept *)
-        | _ => n_bcast r
+        (* ipaddress.IPv6Network accepts a prefix length only: an address-form mask (it contains ':') is
+           turned into the number of its one bits first (fix 0a57bb9) *)
+        | MAddr m => Some (bcast_prefix 128 (n_addrz r) (popcount m))
+        | MNone => n_bcast r
         end
       else n_bcast r
   | _ => n_bcast r
+  end.
+
+(* the code before fix 0a57bb9: an IPv6 netmask in address form made ipaddress raise; the row kept its broadcast *)
+Definition post_bcast_pre_0a57bb9 (p : plat) (r : nicrow) : option Z :=
+  match p, n_mask r with
+  | Windows, MAddr _ => if n_fam r =? 1 then n_bcast r else post_bcast p r
+  | _, _ => post_bcast p r
   end.
